@@ -55,6 +55,14 @@ RandVector(k) ==
          Step("gen_random", "C09", FALSE, [n |-> 1, rand |-> [mode |-> "replay", stream |-> Ref(1, "delivered")]],
               [panic |-> FALSE, err |-> FALSE, num |-> Ref(1, "num")]),
          Step("gen_random", "C09", FALSE, [n |-> 1, rand |-> [mode |-> "det", seed |-> Seed]], [panic |-> FALSE, err |-> FALSE, num |-> Ref(1, "num")]),
+         \* the same octets delivered in short reads (as a real source may): the same number
+         Step("gen_random", "C09", FALSE, [n |-> 1, rand |-> [mode |-> "det", seed |-> Seed, chunk |-> 64]], [panic |-> FALSE, err |-> FALSE, num |-> Ref(1, "num")]),
+         Step("gen_random", "C09", FALSE, [n |-> 1, rand |-> [mode |-> "det", seed |-> Seed, chunk |-> 1]], [panic |-> FALSE, err |-> FALSE, num |-> Ref(1, "num")]),
+         Step("gen_random", "C09", FALSE, [n |-> 1, rand |-> [mode |-> "replay", stream |-> Ref(1, "delivered"), chunk |-> 100]],
+              [panic |-> FALSE, err |-> FALSE, num |-> Ref(1, "num")]),
+         \* short reads and then a failure: the failure is delivered before a whole number is, so no number may come back
+         Step("gen_random", "C09", FALSE, [n |-> 1, rand |-> [mode |-> "fail", seed |-> Seed, chunk |-> 100, failat |-> 2]],
+              [panic |-> FALSE, err |-> TRUE, hasnum |-> FALSE]),
          Step("gen_random", "C09", FALSE, [n |-> 2, rand |-> [mode |-> "det", seed |-> Seed + 1]], [panic |-> FALSE, err |-> FALSE, distinct |-> 2, inrange |-> TRUE]) >>
     ELSE IF k = 2 THEN      \* a source that delivers too-small numbers first: the generator must not return them
       << Step("gen_random", "C09", FALSE, [n |-> 1, rand |-> [mode |-> "replay", stream |-> Cat(<< FillT("zero", 256, 0), FillT("ff", 256, 0), Cat(<< FillT("zero", 239, 0), FillT("ff", 17, 0) >>), FillT("seeded", 256, 5) >>)]],
